@@ -277,6 +277,41 @@ pub mod atomic {
     atomic_int!(AtomicIsize, AtomicIsize, isize);
     atomic_arith!(AtomicIsize, isize);
 
+    /// An `AtomicU8` whose operations are scheduling points only while `token_points(true)` is
+    /// in effect. Used (through a guarded hook) for salsa's per-handle cancellation token, which
+    /// otherwise is a plain std atomic invisible to the scheduler; off by default so that the
+    /// schedule spaces of the other checks are unchanged.
+    #[derive(Default, Debug)]
+    pub struct TokenU8(std::sync::atomic::AtomicU8);
+    pub(crate) static TOKEN_POINTS: std::sync::atomic::AtomicBool = std::sync::atomic::AtomicBool::new(false);
+    impl TokenU8 {
+        #[inline]
+        fn pt() {
+            if TOKEN_POINTS.load(Ordering::SeqCst) {
+                engine::sched_point(Pending::None);
+            }
+        }
+        pub const fn new(v: u8) -> Self {
+            Self(std::sync::atomic::AtomicU8::new(v))
+        }
+        pub fn load(&self, _o: Ordering) -> u8 {
+            Self::pt();
+            self.0.load(Ordering::SeqCst)
+        }
+        pub fn store(&self, v: u8, _o: Ordering) {
+            Self::pt();
+            self.0.store(v, Ordering::SeqCst)
+        }
+        pub fn fetch_or(&self, v: u8, _o: Ordering) -> u8 {
+            Self::pt();
+            self.0.fetch_or(v, Ordering::SeqCst)
+        }
+        pub fn fetch_and(&self, v: u8, _o: Ordering) -> u8 {
+            Self::pt();
+            self.0.fetch_and(v, Ordering::SeqCst)
+        }
+    }
+
     pub struct AtomicPtr<T>(std::sync::atomic::AtomicPtr<T>);
     impl<T> AtomicPtr<T> {
         pub const fn new(p: *mut T) -> Self {
